@@ -56,6 +56,7 @@ def documents(tier='quick'):
     docs.append(('claim-shift', '2000-01-01 *\n    foo: 1\n    ; c1\n    Assets:Foo  100.00 USD\n    Assets:Bar\n'))
     docs.append(('crcrlf', '2000-01-01 open Assets:Foo\r\r\n; c\r\r\n\r\r\n2000-01-02 close Assets:Foo\r\r\n'))
     docs.append(('crcrlf-end', '2000-01-01 open Assets:Foo\r\r\n'))
+    docs.append(('standalone-comments', '2000-01-01 open Assets:Foo\n\n; s1\n\n; s2\n; s2b\n\n2000-01-02 * "t"\n    Assets:Foo  1 USD\n    Assets:Bar\n\n; s3\n\n2000-01-03 close Assets:Foo\n'))
     docs.append(('org-headings', '* Heading\n** Sub\n2000-01-01 open Assets:Foo\n'))
     return docs
 
